@@ -275,9 +275,11 @@ def one_shard_ctx(ttl, step, kinds, spare, regpat, size, rng, sid_=1):
         hk = dict(addr=addr, region=reg, tick=T, plog=[], shards=[sid_])
         if k == "H0":
             reps.append((rid, addr, T, 10))
+            hk["plog"] = [(sid_, rid)]           # a running replica has a persisted log: never a reason to restore it
         elif k == "H1":
             reps.append((rid, addr, T - ttl, 10))
             hk["tick"] = T - ttl
+            hk["plog"] = [(sid_, rid)]
         elif k == "W":
             reps.append((rid, addr, 0, T - step))
         elif k == "Z":
